@@ -72,6 +72,7 @@ func specHasProp(sp *FuncSpec, p string) bool {
 type checkRun struct {
 	prop      string
 	tier      string
+	extra     map[string]interface{}
 	prog      *Program
 	specs     *Specs
 	obls      []*Obligation
@@ -436,7 +437,9 @@ func cmdCheck(args []string) {
 	tier := fs.String("tier", "quick", "quick|thorough")
 	writeBaseline := fs.Bool("write-baseline", false, "record the discharged obligations as the baseline (maintainer use, unchanged tree only)")
 	verbose := fs.Bool("v", false, "verbose")
+	child := fs.Bool("selftest-child", false, "internal: run on the tree named by VERIF_REPO, print verdict lines only (no evidence, no replay files)")
 	fs.Parse(args)
+	selftestChild = *child
 	if *prop == "" {
 		fmt.Fprintln(os.Stderr, "--property required")
 		os.Exit(2)
@@ -445,6 +448,8 @@ func cmdCheck(args []string) {
 	code := runCheck(*prop, *tier, *writeBaseline, *verbose, t0)
 	os.Exit(code)
 }
+
+var selftestChild bool
 
 func runCheck(prop, tier string, writeBaseline, verbose bool, t0 time.Time) int {
 	prog, err := LoadProgram("verif")
@@ -631,6 +636,30 @@ func runCheck(prop, tier string, writeBaseline, verbose bool, t0 time.Time) int 
 	for _, n := range notes {
 		fmt.Println(n)
 	}
+	if selftestChild {
+		for _, v := range viols {
+			fmt.Printf("VIOLATION property=%s obligation=%s\n", prop, v.g.Name)
+		}
+		fmt.Printf("property %s: %d violations\n", prop, len(viols))
+		if len(viols) > 0 {
+			return 1
+		}
+		return 0
+	}
+	// thorough tier: every discharged obligation is confirmed by a second, independent solver, and the
+	// must-fail corpus (seeded changes and reverted fixes of this property) is replayed on scratch copies
+	if tier == "thorough" {
+		agree, undecided, disagree := cr.crossCheck(groups, claimed)
+		cr.extra = map[string]interface{}{"cross_check": map[string]interface{}{"confirmed_by_second_solver": agree, "second_solver_undecided": undecided, "disagreements": len(disagree)}}
+		for _, g := range disagree {
+			viols = append(viols, violation{g, "solvers disagree: discharged by " + g.Solver + ", refuted by a second solver"})
+		}
+		st := selfTest(prop, known)
+		cr.extra["must_fail_corpus"] = st
+		for _, l := range st {
+			fmt.Println(l)
+		}
+	}
 	replayDir := filepath.Join(verifDir, "replays", prop)
 	for _, v := range viols {
 		path, repro := writeReplay(cr, replayDir, prop, v.g, v.reason)
@@ -722,6 +751,7 @@ func writeEvidence(cr *checkRun, prop, tier string, groups []*oblGroup, nClaimed
 			"known_findings":           known,
 			"notes":                    notes,
 			"contracts_relied_on":      sortedSet(cr.used),
+			"thorough":                 cr.extra,
 		},
 		"assumptions": assumptions,
 		"wall_s":      wall,
@@ -786,4 +816,159 @@ func writeReplay(cr *checkRun, dir, prop string, g *oblGroup, reason string) (st
 	b, _ := json.MarshalIndent(rec, "", " ")
 	os.WriteFile(path, append(b, '\n'), 0644)
 	return path, repro
+}
+
+
+// crossCheck re-solves every discharged claimed obligation with a solver other than the one that
+// discharged it. Returns counts and the groups a second solver refutes.
+func (cr *checkRun) crossCheck(groups []*oblGroup, claimed map[string]bool) (agree, undecided int, disagree []*oblGroup) {
+	type job struct {
+		g *oblGroup
+		o *Obligation
+	}
+	var jobs []job
+	for _, g := range groups {
+		if g.Status != "discharged" || !claimed[g.Name] || g.Kind == "vacuity" {
+			continue
+		}
+		for _, o := range g.Insts {
+			if o.Res != nil && o.Res.Status == "unsat" && o.Res.SMTText != "" {
+				jobs = append(jobs, job{g, o})
+			}
+		}
+	}
+	var mu sync.Mutex
+	bad := map[*oblGroup]bool{}
+	sem := make(chan struct{}, 16)
+	var wg sync.WaitGroup
+	for i, j := range jobs {
+		wg.Add(1)
+		sem <- struct{}{}
+		go func(i int, j job) {
+			defer wg.Done()
+			defer func() { <-sem }()
+			// the other two solvers, in turn, until one decides
+			st := "unknown"
+			for _, sp := range solvers {
+				if strings.HasPrefix(j.o.Res.Solver, sp.name) {
+					continue
+				}
+				r, _, _ := runSolver(sp, j.o.Res.SMTText, cr.smtDir, fmt.Sprintf("x%d", i), 10000)
+				if r == "unsat" || r == "sat" {
+					st = r
+					break
+				}
+			}
+			mu.Lock()
+			switch st {
+			case "unsat":
+				agree++
+			case "sat":
+				bad[j.g] = true
+			default:
+				undecided++
+			}
+			mu.Unlock()
+		}(i, j)
+	}
+	wg.Wait()
+	for g := range bad {
+		disagree = append(disagree, g)
+	}
+	sort.Slice(disagree, func(a, b int) bool { return disagree[a].Name < disagree[b].Name })
+	return
+}
+
+// selfTest replays the must-fail corpus of a property: every seeded change under /verif/seeded whose
+// meta.json names the property, and every repaired defect recorded for it (the fix is reverted), is
+// applied to a scratch copy of the current tree, and the quick check is run on that copy. A change
+// that is not reported is a weakness of the check and is listed (it does not change the verdict on
+// the current tree). Scratch copies live under $TMPDIR and are removed.
+func selfTest(prop string, known []KnownFinding) []string {
+	var out []string
+	type item struct{ name, patch string; reverse bool }
+	var items []item
+	ents, _ := os.ReadDir(filepath.Join(verifDir, "seeded"))
+	for _, e := range ents {
+		var meta struct {
+			Property string `json:"property"`
+			Status   string `json:"status"`
+		}
+		if loadJSON(filepath.Join(verifDir, "seeded", e.Name(), "meta.json"), &meta) != nil || meta.Property != prop || meta.Status == "superseded" {
+			continue
+		}
+		items = append(items, item{"seed " + e.Name(), filepath.Join(verifDir, "seeded", e.Name(), "patch.diff"), false})
+	}
+	seenCommit := map[string]bool{}
+	for _, k := range known {
+		if k.Property != prop || k.Status != "fixed" || k.Commit == "" || seenCommit[k.Commit] {
+			continue
+		}
+		seenCommit[k.Commit] = true
+		items = append(items, item{"reverted fix " + k.Commit, k.Commit, true})
+	}
+	self, err := os.Executable()
+	if err != nil {
+		return []string{"SELFTEST-SKIPPED: " + err.Error()}
+	}
+	for _, it := range items {
+		scratch, err := makeScratch()
+		if err != nil {
+			out = append(out, "SELFTEST-SKIPPED "+it.name+": "+err.Error())
+			continue
+		}
+		func() {
+			defer os.RemoveAll(scratch)
+			tree := filepath.Join(scratch, "tree")
+			if b, err := exec.Command("rsync", "-a", "--exclude", ".git", repoDir()+"/", tree+"/").CombinedOutput(); err != nil {
+				out = append(out, "SELFTEST-SKIPPED "+it.name+": copy failed: "+firstLines(string(b), 1))
+				return
+			}
+			patch := it.patch
+			args := []string{"apply"}
+			if it.reverse {
+				diff, err := exec.Command("git", "-C", repoDir(), "diff", it.patch+"^", it.patch, "--", ".", ":(exclude)*/zz_verif_*").Output()
+				if err != nil {
+					out = append(out, "SELFTEST-SKIPPED "+it.name+": no such commit")
+					return
+				}
+				patch = filepath.Join(scratch, "fix.diff")
+				os.WriteFile(patch, diff, 0644)
+				args = append(args, "-R")
+			}
+			cmd := exec.Command("git", append(args, patch)...)
+			cmd.Dir = tree
+			b, err := cmd.CombinedOutput()
+			if err != nil {
+				// later commits touched neighbouring lines: retry with minimal context
+				cmd = exec.Command("git", append(append([]string{}, args...), "-C1", "--recount", patch)...)
+				cmd.Dir = tree
+				b, err = cmd.CombinedOutput()
+			}
+			if err != nil {
+				out = append(out, "SELFTEST-SKIPPED "+it.name+": does not apply to the current tree: "+firstLines(string(b), 1))
+				return
+			}
+			c := exec.Command(self, "check", "--property", prop, "--tier", "quick", "--selftest-child")
+			c.Env = append(os.Environ(), "VERIF_REPO="+tree)
+			c.Dir = verifDir
+			b, _ = c.CombinedOutput()
+			n := strings.Count(string(b), "VIOLATION property=")
+			if n > 0 {
+				first := ""
+				for _, l := range strings.Split(string(b), "\n") {
+					if strings.HasPrefix(l, "VIOLATION") {
+						first = l[strings.Index(l, "obligation=")+len("obligation="):]
+						break
+					}
+				}
+				out = append(out, fmt.Sprintf("SELFTEST %s: detected (%d obligations, first: %s)", it.name, n, first))
+			} else if c.ProcessState != nil && c.ProcessState.ExitCode() == 2 {
+				out = append(out, "SELFTEST "+it.name+": detected (the changed tree cannot be checked: "+firstLines(string(b), 1)+")")
+			} else {
+				out = append(out, "SELFTEST-MISS "+it.name+": the check does not report this change")
+			}
+		}()
+	}
+	return out
 }
